@@ -273,7 +273,7 @@ pub fn run(p: &Params) -> Run {
     for i in 0..n {
         // one case in five: the joined table declares DEFAULT values
         let dflt = i % 5 == 3;
-        let variant = if dflt { 1 } else if i % 10 == 6 { 2 } else if i % 10 == 8 { 3 } else { 0 };
+        let variant = if dflt { 1 } else if i % 10 == 6 { 2 } else if i % 10 == 4 { 3 } else { 0 };
         let defs = match variant { 1 => defs_d.clone(), 2 => defs_nn.clone(), 3 => defs_arr.clone(), _ => defs_plain.clone() };
         let u = match variant { 1 => u_dflt.clone(), 2 => u_nn.clone(), 3 => u_arr.clone(), _ => u_plain.clone() };
         if dflt { run.count("joined-table-with-defaults"); }
